@@ -26,7 +26,11 @@ impl MutSpec for P {
         self.name.to_string()
     }
     fn seeds(&self, tier: Tier) -> Vec<Seed> {
-        (self.seeds)(tier)
+        // Seeds are built inside the forked child by running zipora's ENCODERS, some of which panic on
+        // their own (not C15's subject).  An escaping panic would unwind through the engine and drop the
+        // child's copy of `Ctx`, deleting the shard's scratch directory under the supervisor's feet; so a
+        // panicking seed builder yields an empty corpus instead (visible as a parser with 0 seed cases).
+        zverif::util::catch(|| (self.seeds)(tier)).unwrap_or_default()
     }
     fn parse(&self, input: &[u8], arg: usize) -> bool {
         (self.parse)(input, arg)
@@ -52,10 +56,36 @@ pub fn payloads() -> Vec<(&'static str, Vec<u8>)> {
         ("text", b"the quick brown fox jumps over the lazy dog; the quick brown fox".to_vec()),
         ("zeros", vec![0u8; 40]),
         ("ramp", (0..=255u8).collect()),
+        // >= 100 bytes over a small alphabet: the first length at which FseEncoder emits a real FSE stream
+        // (shorter inputs are stored with the 0xFF "uncompressed" marker).  Appended last: selector bytes
+        // index this list, so the order of the earlier entries must not change.
+        ("text128", b"the quick brown fox jumps over the lazy dog; the quick brown fox".repeat(2)),
     ]
 }
 
 fn main() {
+    // `ZV_C15_SEEDS=1 c15 [--tier thorough]`: print the seed corpus (label, length, expected_len) of every parser and exit
+    if std::env::var_os("ZV_C15_SEEDS").is_some() {
+        let tier = if std::env::args().any(|a| a == "thorough") { Tier::Thorough } else { Tier::Quick };
+        zverif::util::install_quiet_panic_hook();
+        zverif::util::silence_stdout();
+        for p in parsers::all(tier) {
+            let seeds = match zverif::util::catch(|| (p.seeds)(tier)) {
+                Ok(s) => s,
+                Err(f) => {
+                    eprintln!("{} | SEED BUILDER PANICKED: {}", p.name, f.detail);
+                    Vec::new()
+                }
+            };
+            let total: usize = seeds.iter().map(|s| s.bytes.len()).sum();
+            eprintln!("{} | len_arg={} small={} | {} seeds, {} bytes", p.name, p.len_arg, p.small, seeds.len(), total);
+            for s in &seeds {
+                let ok = zverif::util::catch(|| (p.parse)(&s.bytes, s.expected_len));
+                eprintln!("    {:<50} len={:<5} n={:<4} parse(seed)={:?}", s.label, s.bytes.len(), s.expected_len, ok.map_err(|f| f.class));
+            }
+        }
+        return;
+    }
     zverif::main_with("C15", |reg, tier| {
         for p in parsers::all(tier) {
             reg.add(Mut(p));
